@@ -100,3 +100,17 @@ Definition sweep16 (q : qtype) (sbits : Z) : list Z :=
          | Err _ => -1
          end) (zupto 256).
 End Sweep.
+
+(* ---- calibration scale histories ------------------------------------------------------------------ *)
+Section Ema.
+Variable f : fmt.
+Variable updated_scale : tensor (fl f) -> tensor (fl f) -> b64 -> res (tensor (fl f)).
+(* fold the generated _updated_scale over the per-batch range scales, from the initial buffer 1.0 *)
+Definition ema_fold (news : list Z) (mm me : Z) : res Z :=
+  r <- mfold (fun s n => updated_scale s (dec f (T [] [n])) (b64_lit mm me)) news
+             (T [] [@n_of_Z _ (fnum f) 1]) ;;
+  Ok (hd 0 (data (enc f r))).
+Definition chk_ema (c : list Z * Z * Z * Z) : bool :=
+  let '(news, mm, me, expected) := c in
+  match ema_fold news mm me with Ok b => b =? expected | Err _ => false end.
+End Ema.
